@@ -145,6 +145,22 @@ def dump_only(build):
     return json.loads(r.stdout)
 
 
+def peak_rss(exe, line, timeout=900, stack_kb=None):
+    """Run one request through a harness; returns (rc, stdout, peak resident set in bytes or None)."""
+    d = mkscratch('wbxverif-rss-')
+    tf = os.path.join(d, 'time.txt')
+    pre = f'ulimit -s {stack_kb}; ' if stack_kb else ''
+    try:
+        r = subprocess.run(['bash', '-c', f'{pre}exec /usr/bin/time -f %M -o {tf} {exe}'], input=line, capture_output=True, text=True, timeout=timeout)
+    except subprocess.TimeoutExpired:
+        return -9, '', None
+    try:
+        kb = int(open(tf).read().strip().split('\n')[-1])
+    except (OSError, ValueError):
+        kb = None
+    return r.returncode, r.stdout, (kb * 1024 if kb is not None else None)
+
+
 def lake_build(targets, timeout=3000):
     """lake build the given module targets; returns (ok, output)."""
     t0 = time.time()
